@@ -28,7 +28,9 @@ CLASSES = {
 
 NAMES = ["f", "g.txt", "x y.dat", "ü.txt", ".hid", "noext", "arch.tar.gz", "dot.", "日本", "k"]
 DIRS = ["", "d", "d/sub", "a b", "é", "d/sub/deep", "new", "x.d", "a b/c d"]
-TEXTS = ["", "a", "hello", "héllo wörld", "\n", "日本語", "l1\nl2\n", "\x00z", "😀", " sp ", "tab\there", "q\"u#o$t%e\\"]
+TEXTS = ["", "a", "hello", "héllo wörld", "\n", "日本語", "l1\nl2\n", "\x00z", "😀", " sp ", "tab\there", "q\"u#o$t%e\\",
+         # a leading U+FEFF is content like any other character (what was written is what is read)
+         "\ufeffbom first", "\ufeff", "\ufeff\ufeffx", "mid\ufeffdle"]
 BLOBS = [[], [0], [255, 254], [0xC3, 0x28], [0xE2, 0x82, 0xAC], [0xED, 0xA0, 0x80], [0xF4, 0x90, 0x80, 0x80],
          [0xC0, 0x80], [0xF0, 0x9F, 0x98, 0x80], [104, 105], [0xE2, 0x82], [0x80], [10, 13, 0, 9]]
 FLAGS = ["-r", "-R", "-rf", "-f", "-fR", "-x", "-v"]
